@@ -40,6 +40,6 @@ def gen(rng, tier):
             m["g"] = F(3, 4)
         minr = min(min(row) for row in m["R"])
         bs = gen_beliefs(rng, S, 4)
-        out.append("plan %s %s %d %d %s %d %s %d %s" % (alg, rng.choice(["dense", "dense", "sparse"]), h, rng.choice([3, 6, 10]),
-                   Qs([minr]), rng.randrange(1 << 30), fmt_pomdp(m), len(bs), " ".join(Qs(b) for b in bs)))
+        out.append("plan %s %s %d %d %s %d %s %d %s" % (alg, rng.choice(["dense", "dense", "sparse", "generic"]), h, rng.choice([3, 6, 10]),
+                   Qs([minr + rng.choice([0, 0, -1, -5, 1, 3, 8])]), rng.randrange(1 << 30), fmt_pomdp(m), len(bs), " ".join(Qs(b) for b in bs)))
     return out
